@@ -26,7 +26,15 @@ def run_check(pid, dst):
 
 
 def main():
-    only = set(sys.argv[1:])
+    args = sys.argv[1:]
+    checks = ALL
+    save = True
+    for a in list(args):
+        if a.startswith("--checks="):
+            checks = a.split("=", 1)[1].split(",")
+            save = False          # an ad-hoc try of some checks: print, do not record
+            args.remove(a)
+    only = set(args)
     ndir = os.path.join(V, "neutral")
     rp = os.path.join(ndir, "results.json")
     results = json.load(open(rp)) if os.path.exists(rp) else {}
@@ -34,7 +42,7 @@ def main():
     for name in names:
         if only and name not in only:
             continue
-        dst = scratch_copy("neutral-" + name)
+        dst = scratch_copy("neutral-" + name + ("" if save else "-try"))
         res = {}
         try:
             r = subprocess.run(["git", "apply", os.path.join(ndir, name, "patch.diff")], cwd=dst, capture_output=True, text=True)
@@ -42,9 +50,9 @@ def main():
                 res["result"] = "patch does not apply"
             else:
                 # the first check builds the facts of this tree; the others reuse them
-                first = run_check(ALL[0], dst)
+                first = run_check(checks[0], dst)
                 with ThreadPoolExecutor(6) as ex:
-                    rest = list(ex.map(lambda p: run_check(p, dst), ALL[1:]))
+                    rest = list(ex.map(lambda p: run_check(p, dst), checks[1:]))
                 alarms = {}
                 broken = {}
                 for pid, rc, keys, lost, err in [first] + rest:
@@ -58,10 +66,16 @@ def main():
                     res["broken"] = broken
         finally:
             shutil.rmtree(dst, ignore_errors=True)
-        results[name] = res
-        print(name, res["result"], json.dumps(res.get("alarms") or res.get("broken") or "")[:300])
+        print(name, res["result"], json.dumps(res.get("alarms") or res.get("broken") or "")[:300 if save else 3000])
         sys.stdout.flush()
+        if not save:
+            continue
+        results = json.load(open(rp)) if os.path.exists(rp) else {}
+        results[name] = res
         json.dump(results, open(rp, "w"), indent=1, sort_keys=True)
+    if not save:
+        return 0
+    results = json.load(open(rp)) if os.path.exists(rp) else {}
     with open(os.path.join(ndir, "RESULTS.md"), "w") as fh:
         fh.write("# Behaviour-preserving changes vs. checks (written by tools/run_neutral.py)\n\n"
                  "Each change is applied to a scratch copy of the current tree and all 19 checks run against it; all have to stay silent.\n\n"
